@@ -23,14 +23,38 @@ GROUPS = [
     dict(name="null_closure_4_r0", tiers=("probe",), harness=HB, entry="r_null_closure", defines=["NST=4", "ALL_PRESENT", "ROT=0"], extra_sources=EXTRA, allow_no_body=NBB, unwind=18, unwindset="hash_table_iter_next.0:110,fsg_model_null_trans_closure.4:6,fsg_model_null_trans_closure.3:9,fsg_model_null_trans_closure.2:5,fsg_model_null_trans_closure.1:5,fsg_model_null_trans_closure.0:6",
          flags=["--no-undefined-shift-check", "--no-signed-overflow-check"], replay=RB("r_null_closure", defines=["NST=4", "ALL_PRESENT", "ROT=0"]),
          bounded="4 states, all 6 null arcs i<j present, symbolic log-probabilities in [-1000,0], arc list rotation 0; real hash table / glist code"),
+    dict(name="add_silence_2_q0", harness=HB, entry="r_add_silence_alt", defines=["NST=2", "ALL_PRESENT", "MODE=0", "QPAIR=0"], extra_sources=EXTRA, allow_no_body=NBB, unwind=10,
+         unwindset="hash_table_iter_next.0:110", flags=["--no-undefined-shift-check", "--no-signed-overflow-check"], replay=RB("r_add_silence_alt", defines=["NST=2", "ALL_PRESENT", "MODE=0", "QPAIR=0"]),
+         bounded="2 states, all 4 word arcs present with labels (from state) mod 2, symbolic probabilities, silence transformation, witness state pair 0; real hash table / glist code"),
+    dict(name="add_silence_2_q1", harness=HB, entry="r_add_silence_alt", defines=["NST=2", "ALL_PRESENT", "MODE=0", "QPAIR=1"], extra_sources=EXTRA, allow_no_body=NBB, unwind=10,
+         unwindset="hash_table_iter_next.0:110", flags=["--no-undefined-shift-check", "--no-signed-overflow-check"], replay=RB("r_add_silence_alt", defines=["NST=2", "ALL_PRESENT", "MODE=0", "QPAIR=1"]),
+         bounded="2 states, all 4 word arcs present with labels (from state) mod 2, symbolic probabilities, silence transformation, witness state pair 1; real hash table / glist code"),
+    dict(name="add_silence_2_q2", harness=HB, entry="r_add_silence_alt", defines=["NST=2", "ALL_PRESENT", "MODE=0", "QPAIR=2"], extra_sources=EXTRA, allow_no_body=NBB, unwind=10,
+         unwindset="hash_table_iter_next.0:110", flags=["--no-undefined-shift-check", "--no-signed-overflow-check"], replay=RB("r_add_silence_alt", defines=["NST=2", "ALL_PRESENT", "MODE=0", "QPAIR=2"]),
+         bounded="2 states, all 4 word arcs present with labels (from state) mod 2, symbolic probabilities, silence transformation, witness state pair 2; real hash table / glist code"),
+    dict(name="add_silence_2_q3", harness=HB, entry="r_add_silence_alt", defines=["NST=2", "ALL_PRESENT", "MODE=0", "QPAIR=3"], extra_sources=EXTRA, allow_no_body=NBB, unwind=10,
+         unwindset="hash_table_iter_next.0:110", flags=["--no-undefined-shift-check", "--no-signed-overflow-check"], replay=RB("r_add_silence_alt", defines=["NST=2", "ALL_PRESENT", "MODE=0", "QPAIR=3"]),
+         bounded="2 states, all 4 word arcs present with labels (from state) mod 2, symbolic probabilities, silence transformation, witness state pair 3; real hash table / glist code"),
+    dict(name="add_alt_2_q0", harness=HB, entry="r_add_silence_alt", defines=["NST=2", "ALL_PRESENT", "MODE=1", "QPAIR=0"], extra_sources=EXTRA, allow_no_body=NBB, unwind=10,
+         unwindset="hash_table_iter_next.0:110", flags=["--no-undefined-shift-check", "--no-signed-overflow-check"], replay=RB("r_add_silence_alt", defines=["NST=2", "ALL_PRESENT", "MODE=1", "QPAIR=0"]),
+         bounded="2 states, all 4 word arcs present with labels (from state) mod 2, symbolic probabilities, alt transformation, witness state pair 0; real hash table / glist code"),
+    dict(name="add_alt_2_q1", harness=HB, entry="r_add_silence_alt", defines=["NST=2", "ALL_PRESENT", "MODE=1", "QPAIR=1"], extra_sources=EXTRA, allow_no_body=NBB, unwind=10,
+         unwindset="hash_table_iter_next.0:110", flags=["--no-undefined-shift-check", "--no-signed-overflow-check"], replay=RB("r_add_silence_alt", defines=["NST=2", "ALL_PRESENT", "MODE=1", "QPAIR=1"]),
+         bounded="2 states, all 4 word arcs present with labels (from state) mod 2, symbolic probabilities, alt transformation, witness state pair 1; real hash table / glist code"),
+    dict(name="add_alt_2_q2", harness=HB, entry="r_add_silence_alt", defines=["NST=2", "ALL_PRESENT", "MODE=1", "QPAIR=2"], extra_sources=EXTRA, allow_no_body=NBB, unwind=10,
+         unwindset="hash_table_iter_next.0:110", flags=["--no-undefined-shift-check", "--no-signed-overflow-check"], replay=RB("r_add_silence_alt", defines=["NST=2", "ALL_PRESENT", "MODE=1", "QPAIR=2"]),
+         bounded="2 states, all 4 word arcs present with labels (from state) mod 2, symbolic probabilities, alt transformation, witness state pair 2; real hash table / glist code"),
+    dict(name="add_alt_2_q3", harness=HB, entry="r_add_silence_alt", defines=["NST=2", "ALL_PRESENT", "MODE=1", "QPAIR=3"], extra_sources=EXTRA, allow_no_body=NBB, unwind=10,
+         unwindset="hash_table_iter_next.0:110", flags=["--no-undefined-shift-check", "--no-signed-overflow-check"], replay=RB("r_add_silence_alt", defines=["NST=2", "ALL_PRESENT", "MODE=1", "QPAIR=3"]),
+         bounded="2 states, all 4 word arcs present with labels (from state) mod 2, symbolic probabilities, alt transformation, witness state pair 3; real hash table / glist code"),
 ]
 ASSUMPTIONS = [
     "the per-state null-transition hash table is replaced by its map view at one witness key (contracts/fsg_model.ghost.h): hash_table_lookup_bkey/enter_bkey/new and the link allocator are ASSUMED contracts (the map view itself is what C20 checks)",
     "log-probabilities handed to fsg_model_tag_trans_add are <= 0 (a caller obligation; E_FATAL otherwise)",
 ]
 HAND_LEMMAS = ["closure soundness: every arc the closure adds is null_trans_add(a, c, p1 + p2) for existing arcs a->b, b->c; with the merge contract (never removes, never lowers, keeps the maximum) the closed graph has the same language and best probabilities (standard fixpoint argument, NOT machine checked here)"]
-NOT_COVERED = ["fsg_model_null_trans_closure itself: a bounded run of the real closure over the real hash table (3 and 4 states) did not finish within 10 minutes and is kept in tier 'probe' (seeded change C13_A is NOT detected)", "fsg_model_trans_add / add_silence / add_alt (bounded harness did not finish)", "fsg_model_write / fsg_model_read_s3file round trip (seeded change C13_B)"]
+NOT_COVERED = ["fsg_model_null_trans_closure itself: a bounded run of the real closure over the real hash table (3 and 4 states) did not finish within 10 minutes and is kept in tier 'probe' (seeded change C13_A is NOT detected)", "fsg_model_write / fsg_model_read_s3file round trip (seeded change C13_B)"]
 CLAIM = dict(
-    text="The null-arc merge rule is proved: fsg_model_tag_trans_add / fsg_model_null_trans_add leave the null arc (from,to) with the maximum of the old and new probability, create it exactly once when absent, reject self-loops, report 1/0/-1 accordingly, and never remove, lower or touch any other arc (witness form over the abstract arc map), for all states and probabilities. The closure, silence and alternate-word transformations themselves are NOT decided.",
+    text="The null-arc merge rule is proved: fsg_model_tag_trans_add / fsg_model_null_trans_add leave the null arc (from,to) with the maximum of the old and new probability, create it exactly once when absent, reject self-loops, report 1/0/-1 accordingly, and never remove, lower or touch any other arc (witness form over the abstract arc map), for all states and probabilities. Silence self-loops and alternate-word arcs are checked on the real functions over the real hash table for a 2-state grammar with all word arcs present and symbolic probabilities (bounded, concrete structure): real-word arcs untouched, exactly one silence loop per state, adding it twice changes nothing, every base-word arc gets exactly one twin with the same endpoints and probability. The closure itself is NOT decided.",
     note="merge rule only; closure / silence / alt / file round trip not covered; hash table by assumed map view; trusted: CBMC 6.11",
     technique="CBMC function contracts (goto-instrument --dfcc), callees replaced by map-view contracts, ghost witness key")
